@@ -636,7 +636,7 @@ pub fn plan_for(id: &str, tier: &str) -> Option<Plan> {
             p.profile.w_kind = [45, 5, 40, 5, 5];
             p.profile.valid_add_pct = 85;
             p.required = vec!["snapwin:accept:back5", "snapwin:accept:back1", "snapwin:decline:arg=back6", "snapwin:decline:arg=nil", "snapwin:decline:arg=foreign", "snapwin:accept:back2:cur=back3", "snapwin:decline:arg=back3:back3"];
-            p.rule = "exhaustive small scope (chain length x base x position of existing snapshot x every class of v) plus random histories with bursts of AddSnapshots; each AddSnapshot is judged by the window predicate evaluated on the observed chain and snapshot, declines are framed by full state dumps, snapshot position monotone; the unspecified corner v == non-nil base is tolerated and tallied.";
+            p.rule = "exhaustive small scope (chain length x base x position of existing snapshot x every class of v) plus random histories with bursts of AddSnapshots; each AddSnapshot is judged by the window predicate evaluated on the observed chain and snapshot, declines are framed by full state dumps, snapshot position monotone; the unspecified corner v == non-nil base is tolerated and tallied. Under overlap: the E2 scenarios with two overlapping AddSnapshots (for the latest and for an older version; with and without a concurrent GetSnapshot; library and HTTP handlers) under the controlled scheduler — the snapshot must not move backwards whatever the interleaving.";
         }
         "C11" => {
             p.property = "C11";
